@@ -44,7 +44,7 @@ func c27Sig(s string) string {
 
 func c27Check(c c27Case, r *ev.Rec) error {
 	stable, serr := compileMap(c.Files, c.Names, compileOpts{})
-	exp := newExpSession(c.Files, 4).compile(c.Names)
+	exp := newExpSession(c.Files, 4).compileLinked(c.Names)
 	if exp.Escaped != nil {
 		return fmt.Errorf("a panic escaped the experimental compiler: %v\n%s", exp.Escaped, showFiles(c.Files))
 	}
@@ -86,6 +86,16 @@ func c27Check(c c27Case, r *ev.Rec) error {
 		sig := "exp-accepts/" + c27Sig(msg)
 		if strings.Contains(serr.Error(), "syntax error: ") {
 			sig = "exp-accepts/" + msg // the offending token is what identifies a syntax leniency
+		}
+		if strings.Contains(sig, "implicit presence") {
+			// what is left of these two classes is identified by the shape of the source
+			all := strings.Join(sortedValues(c.Files), "\n")
+			switch {
+			case strings.Contains(all, "FIELD_PRESENCE_UNKNOWN"):
+				sig += " [FIELD_PRESENCE_UNKNOWN]"
+			case strings.Contains(all, "map<"):
+				sig += " [map value]"
+			}
 		}
 		if kerr := c27Report(r, sig, "the stable compiler rejects the workspace (%v), the experimental compiler accepts it (injected defect %q)\n%s", serr, c.Mutation, showFiles(c.Files)); kerr != nil {
 			return kerr
@@ -132,9 +142,6 @@ func c27Check(c c27Case, r *ev.Rec) error {
 						}
 					}
 				}
-				if c27UnknownForMessage.MatchString(sig) && c27UnknownFieldLine.MatchString(g) && !c27UnknownFieldLine.MatchString(w) && strings.Contains(c.Files[f.Path()], "message_encoding = DELIMITED") {
-					sig = "descriptor/delimited-option-field:" + strings.TrimPrefix(sig, "descriptor/")
-				}
 				if kerr := c27Report(r, sig, "%s: the two compilers accept the file but their descriptors differ (%s):\n%s\nsource:\n%s", f.Path(), sig, diff, c.Files[f.Path()]); kerr != nil {
 					return kerr
 				}
@@ -160,6 +167,13 @@ func c27Report(r *ev.Rec, sig, format string, args ...any) error {
 			c27Examples[sig] = msg
 		}
 		c27Survey[sig]++
+		if d := os.Getenv("C27_SURVEY"); d != "1" {
+			if f, err := os.OpenFile(filepath.Join(d, fmt.Sprintf("all-%x.txt", ev.HashStr(sig))), os.O_APPEND|os.O_CREATE|os.O_WRONLY, 0o644); err == nil {
+				lines := strings.Split(strings.TrimSpace(msg), "\n")
+				fmt.Fprintf(f, "%s\n", lines[len(lines)-1])
+				f.Close()
+			}
+		}
 		c27SurveyMu.Unlock()
 		return nil
 	}
@@ -352,28 +366,14 @@ var (
 
 type c27KnownClass struct{ Match, Sig string }
 
-// a message-typed field of an option value ("name: {" in the stable compiler's output) that the experimental compiler
-// wrote so that it decodes as an unknown field ("N: _")
-// (prototext pads its output with a varying number of blanks)
-var c27UnknownForMessage = regexp.MustCompile(`^descriptor/[A-Za-z_0-9]+: +\{ <> `)
-var c27UnknownFieldLine = regexp.MustCompile(`(?m)^\s*[0-9]+: +"`)
-
 var c27Known = []c27KnownClass{
-	{"descriptor/delimited-option-field:", "delimited-option-field-written-length-prefixed"},
-	{"in a field with implicit presence", "closed-enum-implicit-presence-accepted"},
-	{"exp-accepts/default value is not allowed on fields with implicit presence", "default-with-implicit-presence-accepted"},
-	{"exp-accepts/extension with tag N for message", "duplicate-extension-number-accepted"},
-	{"exp-accepts/non-repeated option field", "option-field-set-twice-accepted"},
-	{"exp-accepts/option json_name value cannot start with", "json-name-bracketed-accepted"},
-	{"exp-accepts/unexpected \"max\", expecting int literal", "lone-max-as-range-accepted"},
+	{"in a field with implicit presence [FIELD_PRESENCE_UNKNOWN]", "closed-enum-implicit-presence-accepted"},
+	{"in a field with implicit presence [map value]", "closed-enum-implicit-presence-accepted"},
+	{"exp-accepts/default value is not allowed on fields with implicit presence [FIELD_PRESENCE_UNKNOWN]", "default-with-implicit-presence-accepted"},
 	{"which is not defined; consider using a leading dot", "inner-scope-first-component-shadowing-accepted"},
 	{"exp-rejects/:expected N-bit integer type, found", "jstype-on-non-64-bit-rejected"},
 	{"exp-rejects/:expected repeated field, found singular field", "repeated-field-encoding-on-map-rejected"},
-	{"exp-rejects/:cannot resolve message field name", "group-field-by-type-name-in-literal"},
-	{"exp-rejects/:mismatched types", "group-field-by-type-name-in-literal"},
 	{"exp-rejects/:unsupported base for floating-point literal", "hex-integer-for-float-option"},
-	{"extension fields cannot be", "required-extension-accepted"},
-	{"cannot be used as the value type of a map", "map-value-enum-first-nonzero-accepted"},
 	{"descriptor/only:", "descriptor-encoding-details"},
 }
 
@@ -513,4 +513,12 @@ func TestC27_ImportShapes(t *testing.T) {
 			}
 		}
 	})
+}
+
+func sortedValues(m map[string]string) []string {
+	var out []string
+	for _, k := range sortedKeys(m) {
+		out = append(out, m[k])
+	}
+	return out
 }
